@@ -205,7 +205,8 @@ class VDateTime(_dt.datetime):
 
     @classmethod
     def utcnow(cls) -> "VDateTime":  # type: ignore[override]
-        return cls.now()
+        d = EPOCH + _dt.timedelta(microseconds=vnow_us())  # naive UTC wall clock, whatever the host zone
+        return cls(d.year, d.month, d.day, d.hour, d.minute, d.second, d.microsecond)
 
     @classmethod
     def today(cls) -> "VDateTime":  # type: ignore[override]
@@ -221,14 +222,45 @@ def to_v(d: _dt.datetime) -> VDateTime:
 _HOST_OFFSET_S = 0
 
 
-def _parse_posix_tz(tz: str) -> int:
-    """'EST5' -> -18000, 'IST-5:30' -> +19800 (POSIX sign: positive = west of UTC)."""
-    import re
+def _zone_offset(tz: str) -> tuple[int, int]:
+    """(seconds east of UTC at EPOCH, days around EPOCH over which that offset stays in force) of a POSIX zone string as the C
+    library applies it: 'EST5' -> -18000, 'IST-5:30' -> +19800, 'NZST-12NZDT,M9.5.0,M4.1.0/3' -> +46800 (daylight-saving time
+    is in force there in January; time.timezone says -43200).  A case must stay inside the reach: naive local datetimes are
+    ambiguous across a transition, which is outside what the properties promise."""
+    import os
 
-    m = re.fullmatch(r"[A-Za-z]{3,}([+-]?)(\d{1,2})(?::(\d{2}))?", tz)
-    assert m, tz
-    west = (int(m.group(2)) * 3600 + int(m.group(3) or 0) * 60) * (-1 if m.group(1) == "-" else 1)
-    return -west
+    prev = os.environ.get("TZ")
+    os.environ["TZ"] = tz
+    _time.tzset()
+    try:
+        off = _time.localtime(_EPOCH_TS).tm_gmtoff
+        reach = next((d - 1 for d in range(1, 1200) if _time.localtime(_EPOCH_TS - d * 86400).tm_gmtoff != off
+                      or _time.localtime(_EPOCH_TS + d * 86400).tm_gmtoff != off), 1200)
+        return off, reach
+    finally:
+        if prev is None:
+            os.environ.pop("TZ", None)
+        else:
+            os.environ["TZ"] = prev
+        _time.tzset()
+
+
+_OFFSETS: dict[str, tuple[int, int]] = {}
+# fixed offsets (west, east with a half hour, beyond +12) and two zones that are on daylight-saving time at EPOCH (time.timezone
+# differs from the offset in force; constant for 94 / 47 days around EPOCH)
+ZONES = ["EST5", "IST-5:30", "NZT-13"]
+ZONES_DST = ["NZST-12NZDT,M9.5.0,M4.1.0/3", "BRT3BRST,M10.3.0/0,M2.3.0/0"]
+
+
+def zones(reach_days: float = 1e9) -> list[str]:
+    """Host zones whose offset is constant for reach_days around EPOCH (what a generator may draw from)."""
+    out = list(ZONES)
+    for z in ZONES_DST:
+        if z not in _OFFSETS:
+            _OFFSETS[z] = _zone_offset(z)
+        if _OFFSETS[z][1] >= reach_days:
+            out.append(z)
+    return out
 
 
 def set_host_tz(tz: str | None) -> None:
@@ -236,10 +268,16 @@ def set_host_tz(tz: str | None) -> None:
     import os
 
     want = tz or "UTC"
-    if os.environ.get("TZ") != want or _HOST_OFFSET_S != (_parse_posix_tz(tz) if tz else 0):
+    if tz and tz not in _OFFSETS:
+        _OFFSETS[tz] = _zone_offset(tz)
+    off = _OFFSETS[tz][0] if tz else 0
+    if os.environ.get("TZ") != want or _HOST_OFFSET_S != off:
         os.environ["TZ"] = want
         _time.tzset()
-    _HOST_OFFSET_S = _parse_posix_tz(tz) if tz else 0
+    _HOST_OFFSET_S = off
+    vt = globals().get("_vt")
+    if vt is not None:  # the zone constants of the time module the library sees follow tzset() like the real ones
+        vt.timezone, vt.altzone, vt.daylight, vt.tzname = _time.timezone, _time.altzone, _time.daylight, _time.tzname
 
 
 def at(seconds: float) -> VDateTime:
@@ -261,6 +299,8 @@ _vt.time = lambda: _EPOCH_TS + vnow_s()  # type: ignore[attr-defined]
 _vt.time_ns = lambda: (int(_EPOCH_TS) * 1_000_000 + vnow_us()) * 1000  # type: ignore[attr-defined]
 _vt.perf_counter = lambda: vnow_s()  # type: ignore[attr-defined]
 _vt.monotonic = lambda: vnow_s()  # type: ignore[attr-defined]
+_vt.localtime = lambda secs=None: _time.localtime(_vt.time() if secs is None else secs)  # type: ignore[attr-defined]
+_vt.gmtime = lambda secs=None: _time.gmtime(_vt.time() if secs is None else secs)  # type: ignore[attr-defined]
 
 _installed = False
 _patched_cells = 0
@@ -328,7 +368,7 @@ def install() -> int:
 def run(coro_fn: Callable[..., Any], *args: Any, max_steps: int = 2_000_000, max_vtime: float = 1e7,
         start: float = 0.0, jitter_seed: int | None = None, thread_time: bool = False, tz: str | None = None) -> Any:
     """Run `await coro_fn(loop, *args)` on a fresh VLoop; always tears the loop down.
-    tz: POSIX zone string (fixed offset, e.g. 'EST5', 'IST-5:30') of the simulated host; default UTC."""
+    tz: POSIX zone string ('EST5', 'IST-5:30', or permanent daylight-saving time 'EST5EDT,0/0,J365/25') of the simulated host; default UTC."""
     global _current
     install()
     # (the zone stays in force after the run: the check's oracle converts the datetimes it collected with at()/secs();
